@@ -298,7 +298,7 @@ Definition handler_respond (calls : list callspec) (s : lst) (n : nat) (v : N) (
   end.
 
 (* ---- the step function, split by who moves ---- *)
-Definition step_env (calls : list callspec) (s : lst) (a : envact) : option lst :=
+Definition step_env (v : variant) (calls : list callspec) (s : lst) (a : envact) : option lst :=
     match a with
     | EStart i =>
         match tget (threads s) (TCall i), nth_error calls i with
@@ -308,7 +308,11 @@ Definition step_env (calls : list callspec) (s : lst) (a : envact) : option lst 
             match take_fault s0 2 with
             | (Some x, s1) => Some (caller_panic calls s1 i (EInj x))
             | (None, s1) =>
-                if bclosed s1 then Some (caller_panic calls s1 i EClosed)
+                if bclosed s1 then
+                  (* the link has already ended: the call fails at once; the tree as found also reported
+                     this consequential ErrClosed through setErr (D8) *)
+                  Some (if report_closed v then caller_panic calls s1 i EClosed
+                        else caller_return s1 i zero (Some EClosed))
                 else
                   let e := length (ents s1) in
                   Some (mkL (tset (threads s1) (TCall i) (CRegistered e)) ((N.of_nat i, e) :: tbl s1) (bclosed s1)
@@ -545,7 +549,7 @@ Definition step_infra (v : variant) (calls : list callspec) (s : lst) (t : tname
 Definition lstep (v : variant) (calls : list callspec) (s : lst) (c : choice) (b : nat) : option lst :=
   if crashed s then None else
   match c with
-  | Env a => only0 b (step_env calls s a)
+  | Env a => only0 b (step_env v calls s a)
   | Run t =>
     match tget (threads s) t with
     | None => None
